@@ -328,6 +328,7 @@ class Unit:
         self.stub = set()           # function ids emitted as external_body stubs (contract assumed, body not verified)
         self.stubbed = []
         self.dropped_rewrites = []  # rewrite rules whose pattern no longer occurs
+        self.dropped_shims = []     # functions in which a dropped rewrite left an unspecified remnant behind
         self.unannotated = []       # functions whose body has more loops than the sidecar annotates
 
     def emit(self, text, src=None):
@@ -413,7 +414,17 @@ class Unit:
                     self.counts[key] = self.counts.get(key, 0) + c
                 continue
             if (c == 0 or (cnt is not None and c != cnt)) and getattr(self, "lenient", False) and c == 0:
-                self.dropped_rewrites.append("rewrite \"%s\" in %s no longer applies (the construct it rewrites is gone)" % (old, where))
+                # does a remnant of the construct the rewrite used to eliminate survive in the changed text?  (a call the
+                # rewrite replaced by a specified shim / an annotated form: `.map(`, `.collect(`, `sort_by_key(`, `format!(` ...)
+                # Then the verbatim code calls something that has no specification here, and failures in this function
+                # say nothing about the code: they are UNDECIDED.  If nothing of it survives (the body was rewritten
+                # altogether), the verbatim code stands on its own and the verdict on it is final.
+                calls = lambda t: set(re.findall(r"([A-Za-z_][A-Za-z0-9_]*!?)\s*\(", t))
+                remnant = sorted(x for x in (calls(old) - calls(new)) if re.search(r"(?<![A-Za-z0-9_])%s\s*\(" % re.escape(x), text))
+                self.dropped_rewrites.append("rewrite \"%s\" in %s no longer applies (%s)" % (old, where,
+                    ("its construct survives in another form: %s - unspecified here" % ", ".join(remnant)) if remnant else "the construct it rewrites is gone"))
+                if remnant:
+                    self.dropped_shims.append(where[len("body of "):] if where.startswith("body of ") else where)
                 continue
             if c == 0 or (cnt is not None and c != cnt):
                 raise ExtractError("lost anchor: rewrite \"%s\" expected %s occurrence(s) in %s, found %d"
@@ -823,6 +834,7 @@ class Unit:
             "line_src": [s for (t, s) in self.lines],
             "dropped_hints": self.dropped,
             "dropped_rewrites": self.dropped_rewrites,
+            "dropped_shims": self.dropped_shims,
             "stubbed": self.stubbed,
             "unannotated_loops": self.unannotated,
         }
